@@ -41,7 +41,7 @@ func checkC19(p *Prog, r *Report) {
 	{
 		inShell := map[*types.Var]bool{}
 		if pk := p.Pkg(opsPkg); nil != pk {
-			if tn, ok := pk.Types.Scope().Lookup("Shell").(*types.TypeName); ok {
+			if tn, ok := lookupObj(pk, "Shell").(*types.TypeName); ok {
 				for _, l := range brokerLeaves(tn.Type(), "s", nil, 0) {
 					if nil != l.Var {
 						inShell[l.Var] = true
@@ -110,7 +110,7 @@ func checkC19(p *Prog, r *Report) {
 	/* PlainWritePause. */
 	var pause int64 = -1
 	if pk := p.Pkg(opsPkg); nil != pk {
-		if c, ok := pk.Types.Scope().Lookup("PlainWritePause").(*types.Const); ok {
+		if c, ok := lookupObj(pk, "PlainWritePause").(*types.Const); ok {
 			fmt.Sscan(c.Val().ExactString(), &pause)
 		}
 	}
@@ -725,7 +725,7 @@ func checkC19(p *Prog, r *Report) {
 				}
 				nPlain++
 				c := fnName(fn) + ":marks-Plain"
-				if nil != fn.Pkg && strings.HasSuffix(fn.Pkg.Pkg.Path(), "/"+iobPkg) {
+				if nil != fn.Pkg && strings.Contains(fn.Pkg.Pkg.Path()+"/", "/"+iobPkg+"/") {
 					rRead.OK(c, posOf(st), "the broker's output proxy (C03 decides what it carries)")
 				} else {
 					rRead.Bad(c, posOf(st), "a line which is not shell output is sent as Plain: it is dropped while output is muted, and resets the pause as if the shell had written")
